@@ -1087,23 +1087,33 @@ def rule_voicinginterp(ctx):
     n = 0
     for c in sites:
         n += 1
-        kind = c.args[2] if len(c.args) > 2 else dict(c.kw).get("kind", tm.const("linear"))
-        if kind.op == "const":
-            good = kind.a[0] in RANGE_PRESERVING_KINDS
-            why = "voicing is resampled with kind=%r%s" % (kind.a[0], "" if good else ", which over/undershoots the data range")
-        else:
-            member = tm.cmp("in", kind, tm.mk("tuple", *[tm.const(k) for k in RANGE_PRESERVING_KINDS]))
-            facts_ = [(c0, p0) for c0, p0 in symeval.pc_conds(c.pc) if any(x is kind for x in tm.walk(c0))]
-            ent = finmodel.entails(facts_, member)
-            if ent is None:
-                raise AnalysisError(R, "resample_melody_series: cannot decide which kinds reach interp1d(times, voicing, %s)" % tm.show(kind, 2))
-            good = bool(ent)
-            why = "voicing is resampled with the caller's kind only under a guard that entails kind in %s" % (RANGE_PRESERVING_KINDS,) if good else "the caller's kind reaches interp1d(times, voicing, kind) without being restricted to %s (guard: %s): a quadratic / cubic spline leaves [0, 1]" % (RANGE_PRESERVING_KINDS, "; ".join("%s%s" % ("" if p0 else "not ", tm.show(c0, 3)) for c0, p0 in facts_))
-        yield ob(R, f, "melody.resample_melody_series:voicing-interp#%d" % n, good, why, node=c.node)
+        kind0 = c.args[2] if len(c.args) > 2 else dict(c.kw).get("kind", tm.const("linear"))
+        base_facts = [(c0, p0) for c0, p0 in symeval.pc_conds(c.pc)]
+
+        def alts(k, facts_):
+            if k.op == "ite":
+                return alts(k.a[1], facts_ + [(k.a[0], True)]) + alts(k.a[2], facts_ + [(k.a[0], False)])
+            return [(k, facts_)]
+
+        good, whys = True, []
+        for kind, facts_ in alts(kind0, base_facts):
+            if kind.op == "const":
+                ok1 = kind.a[0] in RANGE_PRESERVING_KINDS
+                whys.append("kind=%r%s" % (kind.a[0], "" if ok1 else " over/undershoots the data range"))
+            else:
+                member = tm.cmp("in", kind, tm.mk("tuple", *[tm.const(k) for k in RANGE_PRESERVING_KINDS]))
+                rel = [(c0, p0) for c0, p0 in facts_ if any(x is kind for x in tm.walk(c0))]
+                ent = finmodel.entails(rel, member)
+                if ent is None:
+                    raise AnalysisError(R, "resample_melody_series: cannot decide which kinds reach interp1d(times, voicing, %s)" % tm.show(kind, 2))
+                ok1 = bool(ent)
+                whys.append("the caller's kind only under a guard that entails a range-preserving kind" if ok1 else "the caller's kind reaches interp1d(times, voicing, kind) without being restricted to %s (guard: %s): a quadratic / cubic spline leaves [0, 1]" % (RANGE_PRESERVING_KINDS, "; ".join("%s%s" % ("" if p0 else "not ", tm.show(c0, 3)) for c0, p0 in rel)))
+            good = good and ok1
+        yield ob(R, f, "melody.resample_melody_series:voicing-interp#%d" % n, good, "voicing is resampled with " + "; ".join(whys), node=c.node)
 
 
 RULES = [
-    ("C01.VOICINGINTERP", 2, rule_voicinginterp),
+    ("C01.VOICINGINTERP", 1, rule_voicinginterp),
     ("C01.MATCHSRC", 4, rule_matchsrc),
     ("C01.WEIGHTEDMEAN", 4, rule_weightedmean),
     ("C01.FFORM", 2, rule_fform),
